@@ -43,8 +43,9 @@ func checkC02(w *World, r *Report) {
 	r.Rule("R02.3", "one element per step in source order: each name step calls CodeNameTest once, '..' pushes one \"..\" element, '.' emits nothing, path productions are left-recursive", 6)
 	r.guard("R02.3", func() { c02Steps(w, r) })
 
-	r.Rule("R02.4", "predicates become keys of the step they follow, independent of their order: PredicatesEnd sorts the collected key names before attaching them to the last element of the top path; in the predicate arm of '=' the key is the left operand's string value and the value the right one", 4)
+	r.Rule("R02.4", "predicates become keys of the step they follow, independent of their order: PredicatesEnd sorts the collected key names before attaching them to the last element of the top path; in the predicate arm of '=' the key is the left operand's string value and the value the right one; each predicated step collects into a freshly made key map", 5)
 	r.guard("R02.4", func() { c02Keys(w, r) })
+	r.guard("R02.4", func() { c02FreshKeyMap(w, r) })
 
 	r.Rule("R02.5", "the value is the tree's value: EvalLocPathInternal navigates with the path it just popped, asks exactly the entry Navigate returned for its value and pushes exactly that value; deref pushes the path of the entry FollowLeafRef returned", 4)
 	r.guard("R02.5", func() { c02Value(w, r) })
@@ -852,4 +853,55 @@ func recvWritesD(e *Effects, f *ssa.Function, idx int, depth int, busy map[*ssa.
 		}
 	}
 	return false
+}
+
+// c02FreshKeyMap: the key map a predicated step collects into starts empty.
+// Every write to PredicatePathElemStack.stack in AddEmptyMap is an append of
+// a freshly made map (no re-slicing that would resurrect a released slot and
+// the keys of an earlier step with it).
+func c02FreshKeyMap(w *World, r *Report) {
+	f := w.SSAFunc(w.Method("xpath", "PredicatePathElemStack", "AddEmptyMap"))
+	if f == nil {
+		panic(undecided{"PredicatePathElemStack.AddEmptyMap"})
+	}
+	stack := w.Field("xpath", "PredicatePathElemStack", "stack")
+	n := 0
+	for _, b := range f.Blocks {
+		for _, in := range b.Instrs {
+			st, ok := in.(*ssa.Store)
+			if !ok {
+				continue
+			}
+			fa, ok := st.Addr.(*ssa.FieldAddr)
+			if !ok || !isFieldAddrOf(fa, stack) {
+				continue
+			}
+			n++
+			fresh := false
+			if c, ok := st.Val.(*ssa.Call); ok {
+				if bi, ok := c.Call.Value.(*ssa.Builtin); ok && bi.Name() == "append" && len(c.Call.Args) == 2 {
+					// the variadic slice holds one element: a MakeMap
+					if sl, ok := c.Call.Args[1].(*ssa.Slice); ok {
+						if al, ok := sl.X.(*ssa.Alloc); ok {
+							for _, ref := range *al.Referrers() {
+								if ia, ok := ref.(*ssa.IndexAddr); ok {
+									for _, r2 := range *ia.Referrers() {
+										if s2, ok := r2.(*ssa.Store); ok {
+											if _, isMk := s2.Val.(*ssa.MakeMap); isMk {
+												fresh = true
+											}
+										}
+									}
+								}
+							}
+						}
+					}
+				}
+			}
+			r.Check(fresh, "R02.4", fmt.Sprintf("AddEmptyMap: write #%d to the key-map stack", n), st.Pos(), "append(stack, freshly made map)", "the stack of predicate key maps is extended by something other than a freshly made map (e.g. by re-slicing over a released slot): keys collected for an earlier step are still there and are attached to a later step as well")
+		}
+	}
+	if n == 0 {
+		r.Fail("R02.4", "AddEmptyMap", f.Pos(), "no write to the key-map stack found")
+	}
 }
